@@ -43,14 +43,26 @@ HEAD = """        (self_value, self_units) = self._unpack_qty(self)
 """
 
 
+# the guard the property asks for (same dimension, or a bare zero); accepted
+# as an alternative so that repairing the known finding R11.3b is not an alarm
+GUARD_STRICT = """        (self_value, self_units) = self._unpack_qty(self)
+        (other_value, other_units) = self._unpack_qty(other)
+        if ((other_units and not self.has_units(other_units)) or
+                (not other_units and not is_zero(other_value))):
+            raise UnitsError('incompatible')
+"""
+
+
 def cmp_ref(op):
-    return "def f(self, other):\n" + GUARD + \
-        "        return self_value %s other_value\n" % op
+    return ["def f(self, other):\n" + g +
+            "        return self_value %s other_value\n" % op
+            for g in (GUARD, GUARD_STRICT)]
 
 
 def add_ref(expr):
-    return "def f(self, other):\n" + GUARD + \
-        "        return self._build(%s, self_units)\n" % expr
+    return ["def f(self, other):\n" + g +
+            "        return self._build(%s, self_units)\n" % expr
+            for g in (GUARD, GUARD_STRICT)]
 
 
 def eq_ref(result, op):
@@ -262,3 +274,57 @@ def run(chk, repo, tier):
              for s in repo.mod(QTY).tree.body)
     chk.ob('R11.6', ok, QTY, repo.mod(QTY).tree.body[0], key='is_zero-import',
            qualname='<module>', what='qty.py uses Units.utils.is_zero')
+    guard_vs_property(chk, repo, meths)
+
+
+def guard_vs_property(chk, repo, meths):
+    """R11.3b: the guard's boolean function against the property's: combining
+    is allowed iff the other operand has the same dimension, or is a *bare*
+    (unit-less) zero.  Atoms: Z = other value is zero, U = other has units,
+    S = self has the other's units (S implies U)."""
+    Z = ('truthy', sym.expr_key('is_zero(self._unpack_qty(other)[0])'))
+    U = ('truthy', sym.expr_key('self._unpack_qty(other)[1]'))
+    S = ('truthy', sym.expr_key(
+        'self.has_units(self._unpack_qty(other)[1])'))
+    bad = {}
+    for m in ('__lt__', '__le__', '__gt__', '__ge__', '__add__', '__radd__',
+              '__sub__', '__rsub__'):
+        if m not in meths:
+            continue
+        paths = sym.summarize(meths[m])
+        for z in (False, True):
+            for u in (False, True):
+                for s_ in (False, True):
+                    if s_ and not u:
+                        continue
+                    assign = {Z: z, U: u, S: s_}
+                    feas = [p for p in paths if p.feasible(assign)]
+                    raises = set(p.outcome[0] == 'raise' and
+                                 p.outcome[1] == 'UnitsError' for p in feas)
+                    if len(raises) != 1:
+                        bad.setdefault('ambiguous', []).append(m)
+                        continue
+                    want = (not s_) and (u or not z)
+                    if list(raises)[0] != want:
+                        bad.setdefault((z, u, s_), []).append(m)
+    for k, ms in sorted(bad.items(), key=repr):
+        if k == 'ambiguous':
+            chk.ob('R11.3', False, QTY, meths[ms[0]], key='guard-ambiguous',
+                   what='the guard of %s does not decide raise/no-raise from '
+                        'zero(other), units(other), same-units' % ms)
+        else:
+            z, u, s_ = k
+            chk.ob('R11.3', False, QTY, meths[ms[0]],
+                   qualname='GenericQuantity',
+                   key='guard-deviation:zero=%s,units=%s,same=%s' % k,
+                   what='the compatibility guard deviates from "same '
+                        'dimension or bare zero" when other is %s, %s and '
+                        '%s (methods: %s)' % (
+                            'zero' if z else 'non-zero',
+                            'has units' if u else 'unit-less',
+                            'of the same dimension' if s_
+                            else 'of another dimension', ', '.join(ms)))
+    if not bad:
+        chk.ob('R11.3', True, QTY, meths['__lt__'], key='guard=property',
+               what='the guard equals "same dimension or bare zero"')
+
